@@ -13,3 +13,14 @@ def d19_single_value_forced_extension(case, rec):
         and len(new) >= 4 and new[-1] == new[-2] == old[0]
         and new[0] < new[1] < old[0]
     )
+
+
+def d35_imported_graph_name_after_pickle(case, rec):
+    """C16: only the *name* of a collection that holds an imported graph (persist / legacy
+    round trip => FromGraph with pandas partitions inside) changes across pickling."""
+    if rec.get("kind") != "unpickled-differs" or rec.get("bucket_hint") != "name":
+        return False
+    prog = rec.get("program") or (case.get("batch") or [None])[0]
+    if not prog:
+        return False
+    return any(s["op"] == "cut" and s["args"].get("how") in ("persist", "legacy", "legacy_noopt") for s in prog["steps"])
